@@ -644,6 +644,12 @@ impl<'a> UserModel<'a> {
             if let Some(view) = self.model.workbook.views.get_mut(&self.model.view_id) {
                 view.sheet = sheet_count - 2;
             };
+        } else if let Some(view) = self.model.workbook.views.get_mut(&self.model.view_id) {
+            // The sheets after the deleted one moved down by one position:
+            // the selection must not be left pointing past the last sheet
+            if view.sheet + 1 >= sheet_count && view.sheet > 0 {
+                view.sheet -= 1;
+            }
         }
         Ok(())
     }
